@@ -2854,12 +2854,14 @@ class Parameters:
         triggers = {p:self_[p]._autotrigger_value
                     for p in trigger_params if p in param_names}
 
+        # look the names up first: an unknown name raises KeyError before
+        # the queued events have been parked
+        param_values = self_.values()
+        params = {name: param_values[name] for name in param_names}
         events = self_._events
         watchers = self_._state_watchers
         self_._events  = []
         self_._state_watchers = []
-        param_values = self_.values()
-        params = {name: param_values[name] for name in param_names}
         self_._TRIGGER = True
         try:
             if self_.self is None:
